@@ -9,6 +9,8 @@ for f in sorted(os.listdir('/tmp/mut')):
   txt = open(f'/tmp/mut/{f}').read()
   ok = 'demo_clean_rc=0' in txt and re.search(r'demo_mutant_rc=[1-9]', txt) and '657 passed' in txt and '7 errors' in txt and 'failed' not in txt.split('suite with mutant')[-1]
   d = f'/verif/seeded/{prop}-{n}'
+  if not os.path.exists(f'/tmp/mut/{prop}/_out/mutant{n}.diff'):
+    continue      # scratch worktree already removed (stored earlier)
   if not ok:
     print('NOT CONFIRMED', prop, n, txt.replace('\n', ' ')[:300])
     continue
